@@ -343,7 +343,7 @@ Proof.
     cbn [expand_items]. destruct (h_auto h); [exact I|].
     apply no_panic_bind; [apply split_body_no_panic|]. intros [items fl] _.
     apply no_panic_bind; [apply parse_impl_attr_no_panic|]. intros a _.
-    unfold output_for_impl. cbn [ia_opts ia_kind].
+    unfold output_for_impl. destruct (path_has_arguments tp); [exact I|]. cbn [ia_opts ia_kind].
     apply no_panic_bind; [apply analyze_all_no_panic|]. intros [fns0 tg] E.
     apply no_panic_bind; [apply detect_no_panic; discriminate|]. intros mode _.
     apply no_panic_bind; [|intros ib _; exact I].
